@@ -97,6 +97,11 @@ def run_op(case, name, mesh=None):
         r = entries(O.gradient(mesh, conn, as_complex=(base == "gradc")))
         r["bases"] = [[[float(t) for t in conn.base(i)[0]], [float(t) for t in conn.base(i)[1]]] for i in range(len(mesh.faces))]
         return r
+    if base == "gag":   # Re(G^* A G) with scipy's products, on the same mesh object
+        conn = SurfaceConnectionFaces(mesh) if arg == "conn" else FlatConnectionFaces(mesh)
+        G = O.gradient(mesh, conn)
+        A = O.area_weight_matrix_faces(mesh)
+        return entries((G.conj().transpose() @ A @ G).real)
     if base == "massv":
         i, s = arg.split(",")
         return entries(O.area_weight_matrix(mesh, inverse=flag(i), sqrt=flag(s)))
